@@ -31,7 +31,7 @@ ASSUMPTIONS = [
 ]
 osyris = None
 UNITS = ["m", "cm", "km", "s", "hr", "g", "kg", "dimensionless"]
-DT = ["float64", "float64", "float32", "int64"]
+DT = ["float64", "float64", "float32", "int64", "int32"]
 
 
 def prepare(ctx):
@@ -200,7 +200,10 @@ def _check_world(w, r, where):
             tol = 1e-5 if (m.lowp or w.buf_lowp.get(m.buf)) else 1e-9
             with np.errstate(all="ignore"):
                 ok = (np.abs(got - want) <= tol * np.abs(want)) | (got == want) | ~np.isfinite(want) | (np.abs(want) > 1e30)
-                okc = (less == (want > 0)) | ~np.isfinite(want) | (want == 0)
+                # the rounding allowance of the buffer (a sum that cancels leaves a residue of either sign, or none)
+                allow = w.buf_abs.get(m.buf, 0.0) * m.unit[0]
+                ok |= np.abs(got - want) <= allow
+                okc = (less == (want > 0)) | ~np.isfinite(want) | (want == 0) | (np.abs(want) <= allow)
             if got.shape != want.shape or not np.all(ok):
                 r.bad(["conversion-stale"], f"{where}: pool[{ei}].to({base}) = {got.tolist()} but its values are {want.tolist()} (cgs)")
                 return
@@ -222,8 +225,11 @@ def _check_world(w, r, where):
             tol = 1e-5 if lowp else 1e-9
             with np.errstate(all="ignore"):
                 ok = (np.abs(got - want) <= tol * np.abs(want)) | (got == want) | ~np.isfinite(want) | (np.abs(want) > 1e30)
+                ok |= np.abs(got - want) <= sum(w.buf_abs.get(m.buf, 0.0) for m in e.comps)
                 if e.comps[0].dtype.startswith("int"):
                     ok |= np.abs(want) > 3e4      # integer squares may overflow: numpy's business
+                if any(m.dtype == "float32" for m in e.comps):
+                    ok |= np.abs(want) > 1e18     # float32 squares beyond 3.4e38: the storage type's range, as above
             if got.shape != want.shape or not np.all(ok):
                 r.bad(["norm-stale"], f"{where}: pool[{ei}] alias {oi}: norm {got.tolist()} but components give {want.tolist()}")
                 return
